@@ -86,3 +86,40 @@ PROPS["C04"] = {
     "assumptions": ["native round-trip findings (decode(encode(ms)) bytes / type / size) are comparisons made by the generator on real library output and are reported as violations without a solver"],
 }
 PROPS["C09"]["functions"] = PROPS["C09"]["functions"] + ["varint_len, push_opcode_size (symbolically, all inputs; hook H3)"]
+
+PROPS["C08"] = {
+    "level": "translation_validation",
+    "trusted_base": _VM_TB + ["/verif/harness/src/gen/c08.rs: policy enumeration and the array form of the INPUT policy (independent of the library's lift)"],
+    "functions": ["natively: Concrete::compile::<Segwitv0|Tap|Legacy|BareCtx>, Concrete::compile_tr, then encode / build_template(_mall) / validate(Ctx::SANE) / within_resource_limits / to_string + from_str on the output"],
+    "bounds": {"quick": "481 concrete policies (and / weighted or / thresh over <=4 keys, <=2 hashes, <=2 locks per kind, no repeated atoms; 1-level all pairs, hash-selected triples and 2-level policies), every successful compilation in Segwitv0 and Tap, a third in Legacy, a seventh in Bare, compile_tr with <= 4 leaves; symbolic asset world (32-bit locks) and symbolic witnesses <= max_args+1",
+               "thorough": "1200 + 1500 seed-selected policies"},
+    "outside": ["policies above the bound or with repeated keys", "optimality of the output", "policies the compiler refuses (counted as compilations_refused)", "compile_tr_private_experimental, compile_to_descriptor wrappers other than tr"],
+    "assumptions": ["the compiler ran NATIVELY; the solver decided the statements about its output against the INPUT policy (translation validation)"] + _W_ASSUME[1:],
+}
+
+PROPS["C11"] = {
+    "level": "proof",
+    "trusted_base": COMMON_TB,
+    "functions": ["plan::is_key_direct_child_of (hook H4) on single keys with symbolic key-origin and asset paths", "expression::parse_num on all strings <= 3 chars over 12 characters",
+                  "(under C04) miniscript::lex::lex one symbolic byte in concrete contexts; (under C12) AbsLockTime/RelLockTime::from_consensus all u32, Threshold::new; (under C15) TapTreeBuilder / BitStack128 steps from arbitrary valid states - all with Kani's panic/overflow/bounds/unwinding checks on"],
+    "bounds": {"quick": "derivation paths of length 0..=2 each (9 length pairs, child numbers symbolic 8-bit); number strings <= 3 characters", "thorough": "same"},
+    "outside": ["expression::Tree::from_str (3 symbolic characters exceed 17 GB in CBMC - measured), Descriptor/Miniscript string parsers, decode(), the interpreter, PSBT handling, xpub-based keys in the planner (the DescriptorXKey variant of the same harness runs out of memory; the single-key variant reaches the same function)",
+                "allocation bounds / stack depth"],
+    "assumptions": ["Kani's default checks: no panic, no arithmetic overflow, no out-of-bounds access, loops terminate within the unwinding bound"],
+}
+PROPS["C15"] = {
+    "level": "proof",
+    "trusted_base": COMMON_TB + ["/verif/harness/src/c15.rs: reference tree walk (complete-left-subtree marks per height)"],
+    "functions": ["TapTreeBuilder::push_leaf, push_inner_node (hook H5) from an ARBITRARY state satisfying the representation invariant", "BitStack128::push/pop from an arbitrary state"],
+    "bounds": {"quick": "push_inner_node and the bit stack: whole state space (u128 x bool x u8); no bound", "thorough": "push_leaf: whole state space (inductive step, heights 0..=128)"},
+    "outside": ["Merkle root / control block computation (TrSpendInfo::nodes_from_tap_tree: heap vectors of nodes; hashing), the tweak (secp), parsing/printing of trees, key translation", "trees with more than 2^8 nodes are only covered through the builder's inductive step, not through spend-info"],
+    "assumptions": ["the representation invariant of the builder (marks only at heights 1..=current_height, complete_128 only at height 128) is proved preserved by both steps and holds initially"],
+}
+PROPS["C10"] = {
+    "level": "proof",
+    "trusted_base": COMMON_TB + ["/verif/harness/src/c10.rs: BIP-380 descsum algorithm transcribed from the BIP text (INPUT_CHARSET, CHECKSUM_CHARSET, GENERATOR, polymod)"],
+    "functions": ["descriptor::checksum::Engine::{input, checksum_chars}", "descriptor::checksum::verify_checksum"],
+    "bounds": {"quick": "every printable-ASCII string of <= 2 characters", "thorough": "<= 3 and <= 5 characters; verify_checksum on every <= 2-character body with every 8-character candidate checksum"},
+    "outside": ["error-detection distance of the code on strings longer than the bound (1-/2-character substitutions up to ~500 characters: not decided)", "text round trip of descriptors, miniscripts, policies and keys (display iterators + parsers on heap trees: not reachable, DESIGN §5 C10)"],
+    "assumptions": [],
+}
